@@ -637,6 +637,56 @@ fn exec(w: &mut World, c: &mut Cur) -> Result<AppResponse, String> {
                 &[],
             ))
         }
+        "send_from" => {
+            let ta = c.addr();
+            let sp = c.addr();
+            let ow = c.addr();
+            let target = c.addr();
+            let n = c.num();
+            let msg = c.hook();
+            e(app.execute_contract(
+                Addr::unchecked(sp),
+                Addr::unchecked(ta),
+                &Cw20ExecuteMsg::SendFrom {
+                    owner: ow,
+                    contract: target,
+                    amount: n.into(),
+                    msg,
+                },
+                &[],
+            ))
+        }
+        "burn_from" => {
+            let ta = c.addr();
+            let sp = c.addr();
+            let ow = c.addr();
+            let n = c.num();
+            e(app.execute_contract(
+                Addr::unchecked(sp),
+                Addr::unchecked(ta),
+                &Cw20ExecuteMsg::BurnFrom {
+                    owner: ow,
+                    amount: n.into(),
+                },
+                &[],
+            ))
+        }
+        "decr_allow" => {
+            let ta = c.addr();
+            let ow = c.addr();
+            let sp = c.addr();
+            let n = c.num();
+            e(app.execute_contract(
+                Addr::unchecked(ow),
+                Addr::unchecked(ta),
+                &Cw20ExecuteMsg::DecreaseAllowance {
+                    spender: sp,
+                    amount: n.into(),
+                    expires: None,
+                },
+                &[],
+            ))
+        }
         "provide" => {
             let p = c.addr();
             let caller = c.addr();
